@@ -53,6 +53,7 @@ class CSA:
         self.symtab_bool = {}
         self.err_dirty = {}
         self.symtab_reset = {}
+        self.symtab_marks = set()       # ... those that return the number of names in the outermost global scope
         self.symtab_pure = set()        # `&self` queries of the symbol table returning a number (e.g. how many globals exist)
         self.symtab_resolve = set()     # name -> ('ctxlen', op, n) evaluators for SymbolTable bool methods
         self.err_states = []      # states at error exits (for C17)
@@ -149,6 +150,21 @@ class CSA:
                         nxt.append(('yes' if verdict == 'yes' and v2 == 'yes' else 'maybe', s2, e2))
                 results = nxt
             return results
+        if k == 'p_slice':
+            # `[a, b]` against a list of the syntax tree: matches when the list has that many elements (not known here)
+            if val[0] in ('ast', 'unk'):
+                base = val[1] if val[0] == 'ast' else 'slice'
+                results = [('maybe', st.clone(), env)]
+                for i, sub in enumerate(pat['elems']):
+                    if sub.get('k') == 'p_rest':
+                        continue
+                    nxt = []
+                    for verdict, s1, e1 in results:
+                        for v2, s2, e2 in self.match_pat(sub, ('ast', '%s[%d]' % (base, i)), s1, e1):
+                            nxt.append(('maybe', s2, e2))
+                    results = nxt
+                return results
+            raise Undecided('CSA: slice pattern against %s' % (val,))
         if k == 'p_lit':
             lv = pat['lit'].get('value')
             if val[0] in ('int', 'bool', 'str'):
@@ -1084,7 +1100,7 @@ class CSA:
             if s.in_function is not False or s.frames:
                 s.viol('R09.1', 'self.symbols.%s() (drops every open scope/context) is called inside a construct' % meth)
             what = set(self.symtab_reset[meth])
-            if 'definitions' in what and not (a and a[0][0] == 'symmark'):
+            if 'definitions' in what and not (a and a[0][0] == 'symmark' and a[0][1] in self.symtab_marks):
                 # the names are cut back to a length: it has to be the one observed before the failed compilation began
                 what.discard('definitions')
             s.dirty -= set(what)
